@@ -512,7 +512,7 @@ func genC11BaseMode(r *Rng, farFuture bool) (*Plan, *HistGen) {
 	}
 	// per-entity state operations
 	kinds := []string{"strip-key", "strip-cert", "key-to-csr", "del-art", "strip-hash", "tamper-hash", "bad-hash",
-		"edit-subject", "edit-subject", "touch-cfg", "touch-art", "edit-profile", "nop", "nop", "sigalg-mismatch", "trailing-text"}
+		"edit-subject", "edit-subject", "touch-cfg", "touch-art", "edit-profile", "nop", "nop", "sigalg-mismatch", "trailing-text", "reparent"}
 	n := r.Range(0, 2+len(g.Ents))
 	for i := 0; i < n; i++ {
 		e := Pick(r, g.Ents)
@@ -549,6 +549,42 @@ func genC11BaseMode(r *Rng, farFuture bool) (*Plan, *HistGen) {
 			g.setEnt(ne)
 			g.P.Add(Op{K: "put-ent", Spec: ne, Label: "sigalg-mismatch"})
 			g.P.Meta["sigalg-mismatch"] = ne.ID
+		case "reparent":
+			// only the issuer reference changes: the entity moves under another entity that exists (same
+			// key family as its present signer, so that its algorithm still fits), or becomes a root
+			if e.Issuer == "" || g.P.Meta["sigalg-mismatch"] != "" {
+				break
+			}
+			cur := g.byAlias(e.Issuer)
+			if cur == nil {
+				break
+			}
+			below := map[string]bool{e.ID: true}
+			for changed := true; changed; {
+				changed = false
+				for _, x := range g.Ents {
+					if x.Issuer != "" && !below[x.ID] {
+						if p := g.byAlias(x.Issuer); p != nil && below[p.ID] {
+							below[x.ID], changed = true, true
+						}
+					}
+				}
+			}
+			var cands []string
+			for _, x := range g.Ents {
+				if !below[x.ID] && x.EffAlias() != e.Issuer && keyFamily(x.KeyAlg) == keyFamily(cur.KeyAlg) && !g.Csr[x.ID] {
+					cands = append(cands, x.EffAlias())
+				}
+			}
+			if keyFamily(e.KeyAlg) == keyFamily(cur.KeyAlg) && !g.Csr[e.ID] {
+				cands = append(cands, "")
+			}
+			if len(cands) > 0 {
+				ne := e.Clone()
+				ne.Issuer = Pick(r, cands)
+				g.setEnt(ne)
+				g.P.Add(Op{K: "put-ent", Spec: ne, Label: "reparent"})
+			}
 		case "trailing-text":
 			// a remark or a blank line after the last block: the artifact holds what it held
 			g.P.Add(Op{K: "append-art", Ent: e.ID, Data: Pick(r, []string{"\n", "# kept by hand\n", "trailing text", "\n\n# note\n", " \n"}), Label: "trailing-text"})
